@@ -256,6 +256,64 @@ func VerifPlanValid(doc []byte) (parsed bool, valid bool) {
 	return true, in.Validate() == nil
 }
 
+// verifWithStdin runs f with os.Stdin reading doc from a regular file (what a redirected stdin is): the real ParseTaskInput /
+// ParsePlanInput read os.Stdin themselves.
+func verifWithStdin(doc []byte, f func()) {
+	tmp, err := os.CreateTemp("", "ergo-verif-stdin-")
+	if err != nil {
+		panic(err)
+	}
+	defer os.Remove(tmp.Name())
+	tmp.Write(doc)
+	tmp.Seek(0, 0)
+	old := os.Stdin
+	os.Stdin = tmp
+	defer func() { os.Stdin = old; tmp.Close() }()
+	f()
+}
+
+func verifOpt(p *string) any {
+	if p == nil {
+		return nil
+	}
+	return *p
+}
+
+// VerifParseTaskInput: the real ParseTaskInput on the given stdin bytes.
+func VerifParseTaskInput(doc []byte) J {
+	var out J
+	verifWithStdin(doc, func() {
+		in, verr := ParseTaskInput()
+		if verr != nil {
+			out = J{"parsed": false}
+			return
+		}
+		out = J{"parsed": true, "fields": J{"title": verifOpt(in.Title), "body": verifOpt(in.Body), "epic": verifOpt(in.Epic), "state": verifOpt(in.State),
+			"claim": verifOpt(in.Claim), "result_path": verifOpt(in.ResultPath), "result_summary": verifOpt(in.ResultSummary)}}
+	})
+	return out
+}
+
+// VerifParsePlanInput: the real ParsePlanInput on the given stdin bytes.
+func VerifParsePlanInput(doc []byte) J {
+	var out J
+	verifWithStdin(doc, func() {
+		in, verr := ParsePlanInput()
+		if verr != nil {
+			out = J{"parsed": false}
+			return
+		}
+		tasks := []J{}
+		for _, t := range in.Tasks {
+			after := []string{}
+			after = append(after, t.After...)
+			tasks = append(tasks, J{"title": verifOpt(t.Title), "body": verifOpt(t.Body), "after": after})
+		}
+		out = J{"parsed": true, "fields": J{"title": verifOpt(in.Title), "body": verifOpt(in.Body), "tasks": tasks}, "valid": in.Validate() == nil}
+	})
+	return out
+}
+
 // ---- storage (byte level) --------------------------------------------------------------------
 
 func VerifAppendEvents(path string, evs []Event) error { return appendEvents(path, evs) }
